@@ -8,11 +8,11 @@
 #include "src/express/resolve.c"
 
 /* ---- recording stub for the reporter ---- */
-int g_rep_calls, g_rep_errnum; Symbol *g_rep_sym; const void *g_rep_a1, *g_rep_a2;
+int g_rep_calls, g_rep_errnum, g_rep_error_class; Symbol *g_rep_sym; const void *g_rep_a1, *g_rep_a2;
 void ERRORreport_with_symbol(enum ErrorCode errnum, Symbol *sym, ...)
 {
     va_list ap; va_start(ap, sym);
-    g_rep_calls++; g_rep_errnum = errnum; g_rep_sym = sym;
+    g_rep_calls++; g_rep_errnum = errnum; g_rep_sym = sym; if (errnum != IMPLICIT_DOWNCAST) g_rep_error_class++;
     /* conversions per the table formats (error.c): two %s for OVERLOADED_ATTR / MISSING_SUPERTYPE / REDECL_*, one for the loop diagnostics */
     g_rep_a1 = va_arg(ap, const void *);
     if (errnum == OVERLOADED_ATTR || errnum == MISSING_SUPERTYPE || errnum == REDECL_NO_SUCH_ATTR || errnum == REDECL_NO_SUCH_SUPERTYPE) g_rep_a2 = va_arg(ap, const void *);
@@ -22,4 +22,18 @@ void ERRORreport_with_symbol(enum ErrorCode errnum, Symbol *sym, ...)
 Variable g_inherited; Entity g_gna_entity; char *g_gna_name; int g_gna_calls;
 Variable ENTITYget_named_attribute(Entity e, char *name) { g_gna_calls++; g_gna_entity = e; g_gna_name = name; return g_inherited; }
 void *DICTdo(DictionaryEntry *de) { (void)de; return 0; }
+/* ---- models of the contracts of the two attribute look-ups (schema.c / entity.c), over one ghost fact chosen by the harness:
+ *      where the name is declared relative to the entity asked about: 1 = in it or in an ancestor, 2 = only in a subtype, 0 = nowhere.
+ *      VARfind(entity, name, strict): own or inherited attribute, never a subtype's (enforced on the real bodies in unit entity_c, h_VARfind);
+ *      ENTITYresolve_attr_ref(e, 0, ref): also searches subtypes, reporting only the IMPLICIT_DOWNCAST warning for a hit there, and
+ *      reports UNKNOWN_ATTR_IN_ENTITY when the name is found nowhere (entity.c:248) ---- */
+int g_attr_where; struct Variable_ g_attr_up, g_attr_down; int g_vf_calls; Scope g_vf_scope; char *g_vf_name; int g_vf_strict;
+Variable VARfind(Scope scope, char *name, int strict) { g_vf_calls++; g_vf_scope = scope; g_vf_name = name; g_vf_strict = strict; return g_attr_where == 1 ? &g_attr_up : 0; }
+Variable ENTITYresolve_attr_ref(Entity e, Symbol *grp_ref, Symbol *attr_ref)
+{
+    (void)grp_ref;
+    if (g_attr_where == 1) return &g_attr_up;
+    if (g_attr_where == 2) { ERRORreport_with_symbol(IMPLICIT_DOWNCAST, attr_ref, e->symbol.name); return &g_attr_down; }
+    ERRORreport_with_symbol(UNKNOWN_ATTR_IN_ENTITY, attr_ref, attr_ref->name, e->symbol.name); return 0;
+}
 #include "harnesses.c"
